@@ -1864,6 +1864,65 @@ def device_circuit_ops(mods, rng, qubit_set, pairset, cand, count=None):
     return out
 
 
+def qubit_coords(q):
+    """Position of a LineQubit / GridQubit / TwoDQubit / ThreeDQubit."""
+    if hasattr(q, 'row'):
+        return (float(q.row), float(q.col))
+    return tuple(float(getattr(q, a)) for a in ('x', 'y', 'z') if hasattr(q, a))
+
+
+def far_qubit(q):
+    """A qubit of the type of q at position 9 on every axis."""
+    for k in (1, 2, 3):
+        try:
+            return type(q)(*([9] * k))
+        except TypeError:
+            pass
+    raise TypeError(type(q))
+
+
+def fixed_pasqal_layouts(mods):
+    """(qubits, control radius) of virtual Pasqal devices built on every run: a line, a 2d array, a 3d array and a grid, each wider than the radius."""
+    cirq, cp = mods['cirq'], mods['cirq_pasqal']
+    return [(cirq.LineQubit.range(5), 1.5), ([cp.TwoDQubit(x, y) for x in range(3) for y in range(2)], 1.0),
+            ([cp.ThreeDQubit(x, y, z) for x in range(2) for y in range(2) for z in range(2)], 1.5), ([cirq.GridQubit(r, c) for r in range(2) for c in range(3)], 2.0),
+            ([cp.TwoDQubit(0, 0), cp.TwoDQubit(0, 1.5), cp.TwoDQubit(2.5, 0), cp.TwoDQubit(4, 4)], 3.0)]
+
+
+def multi_qubit_grid(mods, rng, on, pairset, off, big):
+    """Operations on two and more qubits for a device with qubits `on` and allowed pairs `pairset`: single-qubit gates applied in parallel (ParallelGate over
+    X / Y / Z / PhasedX powers, H, a non-Clifford H power), identities on several qubits, a global layer on all device qubits, CZ powers (integer and not),
+    CNOT, CCZ, CCX, XX, joint measurements; each on a tuple whose qubits are pairwise allowed (when the device has one), on a tuple with a pair that is not
+    (the first and a drawn one), in reversed order, and with one qubit outside the device."""
+    cirq = mods['cirq']
+    e = lambda: gates.draw_exp(rng)
+    singles = [cirq.X, cirq.H, cirq.Z ** 0.25, cirq.Y ** e(), cirq.PhasedXPowGate(phase_exponent=e(), exponent=e()), cirq.H ** 0.5]
+    if not big:
+        singles = [cirq.X, rng.choice(singles[1:])]
+    glist = [cirq.ParallelGate(g, n) for g in singles for n in (2, 3)] + [cirq.IdentityGate(2), cirq.IdentityGate(3)]
+    glist += [cirq.CZ, cirq.CZ ** -1, cirq.CZ ** 2, cirq.CZ ** 3, cirq.CZ ** 0.5, cirq.CNOT, cirq.XX ** 0.5, cirq.CCZ, cirq.CCX, cirq.MeasurementGate(2, 'g2'), cirq.MeasurementGate(3, 'g3')]
+    if len(on) >= 4:
+        m = min(len(on), 8)   # a layer on all qubits of the device (at most 8: the matrices are written out)
+        glist += [cirq.ParallelGate(cirq.H, m), cirq.ParallelGate(cirq.X ** 0.5, m - 1), cirq.IdentityGate(m)]
+    out = []
+    for g in glist:
+        n = cirq.num_qubits(g)
+        if n > len(on):
+            continue
+        tuples = list(itertools.islice(itertools.combinations(on, n), 400))
+        near = [t for t in tuples if all(frozenset(p) in pairset for p in itertools.combinations(t, 2))]
+        far = [t for t in tuples if t not in near]
+        chosen = ([near[0]] if near else []) + ([far[-1], rng.choice(far)[::-1]] if far else [])
+        if not chosen:
+            chosen = [tuples[0]]
+        if off:
+            t = list(rng.choice(tuples))
+            t[rng.randrange(n)] = off[0]
+            chosen.append(tuple(t))
+        out += [g.on(*t) for t in dict.fromkeys(chosen)]
+    return out
+
+
 def spec_accepts(cirq, kind, op, gateset, qubit_set, pairs, variadic, cgs=None):
     """The property's statement, evaluated on the real objects: in the gateset, on the device's qubits, on allowed pairs."""
     if kind in ('aqt', 'pasqal', 'pasqal_virtual') and not isinstance(op, cirq.GateOperation):
@@ -1900,6 +1959,8 @@ def device_stream(ctx, mods, n_specs, ops_per_spec):
     # the DeviceSpecification protos are written in different shapes of valid_targets (three fixed, the others drawn)
     layouts = ['split_keep_name', 'decoys', 'conventional'] + [rng.choice(SPEC_LAYOUTS) for _ in protos[3:]]
     specs += [('grid', ('gateset', g)) for g in fixed] + [('grid', ('proto', names, lay)) for names, lay in zip(protos, layouts)] + [('grid', ('named', 'Sycamore'))]
+    # virtual Pasqal devices present on every run: every supported qubit type, layouts larger than the control radius
+    specs += [('pasqal_virtual', ('fixed', qs, r)) for qs, r in fixed_pasqal_layouts(mods)]
     for kind, variant in specs:
         qt = QubitTable()
         cgs = None
@@ -1960,13 +2021,20 @@ def device_stream(ctx, mods, n_specs, ops_per_spec):
             cand = dq + [cirq.NamedQubit('zz'), cirq.NamedQubit('yy'), cirq.LineQubit(0)]
             rule, pairset, qubit_set, gs_obj, gate_only = 'PairsNone', set(), set(dq), device.gateset, True
         elif kind == 'pasqal_virtual':
-            allq = [cirq.GridQubit(r, c) for r in range(2) for c in range(3)]
-            dq = sorted(rng.sample(allq, rng.randint(3, 6)))
-            radius = rng.choice([1.0, 1.5, 2.0, 2.3])
+            if variant is not None:
+                dq, radius = list(variant[1]), variant[2]
+                allq = dq
+                cand = dq + [far_qubit(dq[0])]
+            else:
+                allq = [cirq.GridQubit(r, c) for r in range(2) for c in range(3)]
+                dq = sorted(rng.sample(allq, rng.randint(3, 6)))
+                radius = rng.choice([1.0, 1.5, 2.0, 2.3])
+                cand = allq + [cirq.GridQubit(4, 4)]
             device = cp.PasqalVirtualDevice(radius, dq)
-            cand = allq + [cirq.GridQubit(4, 4)]
-            pairset = {frozenset((a, b)) for a in dq for b in dq if a != b and math.hypot(a.row - b.row, a.col - b.col) <= radius}
-            cgs = device.controlled_gateset
+            pairset = {frozenset((a, b)) for a in dq for b in dq if a != b and math.dist(qubit_coords(a), qubit_coords(b)) <= radius}
+            # "control_radius: the maximum distance between qubits for a controlled gate"; the controlled gates of the virtual device are the
+            # integer powers of CZ (stated here, not read from the device under test)
+            cgs = cirq.Gateset(cirq.AnyIntegerPowerGateFamily(cirq.CZPowGate))
             rule, qubit_set, gs_obj, gate_only = 'PairsIn', set(dq), device.gateset, True
         else:
             nq = rng.randint(2, 4)
@@ -2003,7 +2071,10 @@ def device_stream(ctx, mods, n_specs, ops_per_spec):
         else:
             cops = device_circuit_ops(mods, rng, qubit_set, pairset, cand, count=0)[:6]
         cop_ids = {id(c) for c in cops}
-        for op in [None] * ops_per_spec + cops:
+        # operations on several qubits, with and without interaction, on qubits that are / are not allowed pairs (all kinds of device)
+        grid_ops = multi_qubit_grid(mods, rng, sorted(qubit_set), pairset, [c for c in cand if c not in qubit_set], big=variant is not None or kind != 'grid')
+        grid_ids = {id(o) for o in grid_ops}
+        for op in [None] * ops_per_spec + cops + grid_ops:
             if op is None:
                 op = device_op_pool(mods, rng, cand)
             is_cop = id(op) in cop_ids
@@ -2017,7 +2088,7 @@ def device_stream(ctx, mods, n_specs, ops_per_spec):
             except Exception as e:
                 got = type(e).__name__
             want, why = spec_accepts(cirq, kind, op, gs_obj, qubit_set, pairset, (cirq.MeasurementGate, cirq.WaitGate), cgs)
-            ctx.count(f'device:{kind}' + (':circuit-op' if is_cop else ''), [kind, repr(sorted(qubit_set)), repr(sorted(map(sorted, pairset))), repr(gs_obj)[:400],
+            ctx.count(f'device:{kind}' + (':circuit-op' if is_cop else ':multi-qubit' if id(op) in grid_ids else ''), [kind, repr(sorted(qubit_set)), repr(sorted(map(sorted, pairset))), repr(gs_obj)[:400],
                                                                           show_op(cirq, op) if is_cop else repr(op)[:300]], True,
                       sample=dict(device=kind, op=show_op(cirq, op)[:160] if is_cop else repr(op)[:100], accepted=got, spec=why) if rng.random() < 0.03 else None)
             if is_cop:
@@ -2034,6 +2105,9 @@ def device_stream(ctx, mods, n_specs, ops_per_spec):
                          if gate_less else repr(op)[:160])
                 ctx.violation(sig, (f'{variant[1] if variant is not None and variant[0] == "named" else kind} device validate_operation({shown}) '
                                     f'{"accepts" if got is True else "rejects (" + str(got) + ")"} although the operation is: {why}'
+                                    + (f' (device qubits {sorted(qubit_set)}, control radius {radius}; the radius constrains controlled gates = integer powers of CZ only; '
+                                       f'qubit distances {[round(math.dist(qubit_coords(a), qubit_coords(b)), 3) for a, b in itertools.combinations(op.qubits, 2) if a in qubit_set and b in qubit_set]})'
+                                       if kind == 'pasqal_virtual' else '')
                                     + (' (every operation of its mapped circuit is in the gateset; the device qubits and pairs are respected)' if gate_less and want else ''))[:700]
                                    + (f'; device = GridDevice.from_proto({show_spec(dq, target_sets, variant[1])})' if target_sets is not None else '')[:600],
                               dict(dev_rec, radius=radius if kind == 'pasqal_virtual' else None, op=repr(op)))
@@ -2079,6 +2153,35 @@ def device_stream(ctx, mods, n_specs, ops_per_spec):
                 if model and len(rows) < 240:
                     rows.append(f'Bool.eqb (device_accepts_circuit DEV [{"; ".join(dop_of(o) for o in ordered)}]) {"true" if want else "false"}')
                     meta.append((kind, ordered, f'validate_circuit -> {got}, statement says {want}'))
+        if kind in ('pasqal', 'pasqal_virtual'):
+            # whole circuits that meet the device's own extra requirements (one operation per moment, measurements only at the end):
+            # accepted exactly when every operation on its own is
+            plain = [o for o in seen_ops if not cirq.is_measurement(o)]
+            meas = [o for o in seen_ops if cirq.is_measurement(o)]
+            good = [o for o in plain if spec_accepts(cirq, kind, o, gs_obj, qubit_set, pairset, (), cgs)[0]]
+            seqs = [[o] for o in grid_ops if not cirq.is_measurement(o)]
+            for _ in range(16 if plain else 0):
+                seq = [rng.choice(good) for _ in range(rng.randint(2, 5))] if good and rng.random() < 0.6 else [rng.choice(plain) for _ in range(rng.randint(2, 4))]
+                seqs.append(seq + ([rng.choice(meas)] if meas and rng.random() < 0.4 else []))
+            multi = [o for o in good if len(o.qubits) >= 2]
+            if multi:
+                seqs.append(multi)
+            for ops_c in seqs:
+                wants = [spec_accepts(cirq, kind, o, gs_obj, qubit_set, pairset, (), cgs) for o in ops_c]
+                want = all(w for w, _ in wants)
+                circ = cirq.Circuit(ops_c, strategy=cirq.InsertStrategy.NEW)
+                got = device_answer(lambda: device.validate_circuit(circ))
+                ctx.count(f'device:{kind}:circuit', [kind, repr(sorted(qubit_set)), repr(radius if kind == 'pasqal_virtual' else None), repr(ops_c)[:600]], len(ops_c) >= 2)
+                if got is not want:
+                    culprit = next((f'{o!r} is: {why}' for o, (w, why) in zip(ops_c, wants) if not w), 'every operation is acceptable on its own (in the gateset, on device qubits, controlled gates within the control radius)')
+                    clause = next((why for w, why in wants if not w), 'all-acceptable').replace(' ', '-')
+                    ctx.violation(f'device:{kind}:circuit:{"accepts" if got is True else "rejects"}:{clause}',
+                                  (f'{kind} device (qubits {sorted(qubit_set)}' + (f', control radius {radius}' if kind == 'pasqal_virtual' else '') + f') validate_circuit '
+                                   f'{"accepts" if got is True else "rejects (" + str(got) + ")"} the circuit {[repr(o)[:120] for o in ops_c]} (one operation per moment) although {culprit}')[:900],
+                                  dict(dev_rec, radius=radius if kind == 'pasqal_virtual' else None, ops=[repr(o) for o in ops_c], moments=repr(circ)))
+                if model and len(rows) < 240:
+                    rows.append(f'Bool.eqb (device_accepts_circuit DEV [{"; ".join(dop_of(o) for o in ops_c)}]) {"true" if want else "false"}')
+                    meta.append((kind, ops_c, f'validate_circuit -> {got}, statement says {want}'))
         if not model:
             continue
         if kind == 'grid' and acc_ops:
@@ -2284,6 +2387,209 @@ def spec_sweep_stream(ctx, mods, full):
             ctx.mark_broken('correspondence:device-spec-model', meta[idx][:700])
 
 
+# ---------------------------------------------------------------- FSimGateFamily judged by matrices
+FS_TOL = 1e-7
+FS_SIG = 'membership:fsim-family'
+FS_IDENTITY_SIG = 'membership:fsim-family:accepts:identity-of-other-arity'
+
+
+def fsim_types(cirq):
+    return [cirq.FSimGate, cirq.PhasedFSimGate, cirq.ISwapPowGate, cirq.PhasedISwapPowGate, cirq.CZPowGate, cirq.IdentityGate]
+
+
+def fs_close(a, b):
+    return bool(np.allclose(a, b, atol=FS_TOL))
+
+
+FS_UNITARIES = {}
+
+
+def fs_unitary(cirq, g):
+    k = id(g)
+    if k not in FS_UNITARIES or FS_UNITARIES[k][0] is not g:
+        FS_UNITARIES[k] = (g, cirq.unitary(g))
+    return FS_UNITARIES[k][1]
+
+
+def fsim_type_fits(cirq, T, v):
+    """Is the 4x4 unitary v (v[0,0] = 1) the matrix of SOME instance of the gate type T (zero global shift)?  The documented matrices:
+    PhasedFSimGate = 1 (+) any 2x2 unitary (+) phase; FSimGate(t, p) = 1 (+) [[c, -is], [-is, c]] (+) e^{-ip}; ISwapPowGate = FSimGate with p = 0;
+    PhasedISwapPowGate = 1 (+) [[c, i s f], [i s f*, c]] (+) 1; CZPowGate = diag(1, 1, 1, e^{i pi t}); IdentityGate(2) = 1.  The parameters are read off the
+    matrix and the instance is rebuilt with cirq's own constructor and compared."""
+    pi = math.pi
+    off = np.ones((4, 4), bool)
+    off[0, 0] = off[3, 3] = False
+    off[1:3, 1:3] = False
+    if not fs_close(v[off], 0):
+        return False
+    if T is cirq.PhasedFSimGate:
+        return True
+    if T is cirq.IdentityGate:
+        return fs_close(v, np.eye(4))
+    if T is cirq.CZPowGate:
+        return fs_close(v, cirq.unitary(cirq.CZ ** (np.angle(v[3, 3]) / pi)))
+    if T in (cirq.FSimGate, cirq.ISwapPowGate):
+        theta, phi = math.atan2(-v[1, 2].imag, v[1, 1].real), -np.angle(v[3, 3])
+        return fs_close(v, cirq.unitary(cirq.FSimGate(theta, phi) if T is cirq.FSimGate else cirq.ISWAP ** (-2 * theta / pi)))
+    if T is cirq.PhasedISwapPowGate:
+        w = v[1, 2] / 1j
+        s = abs(w)
+        f = w / s if s > FS_TOL else 1.0
+        return fs_close(v, cirq.unitary(cirq.PhasedISwapPowGate(phase_exponent=np.angle(f) / (2 * pi), exponent=2 * math.atan2(s, v[1, 1].real) / pi)))
+    raise KeyError(T)
+
+
+def fsim_degenerate(cirq, g):
+    """A parameter of g that is not zero has no effect on g's matrix, or only re-writes another gate of the same type (the family may decline these)."""
+    if isinstance(g, cirq.PhasedFSimGate):
+        return (abs(math.sin(g.theta)) < 1e-6 and abs(g.chi) > 1e-9) or (abs(math.cos(g.theta)) < 1e-6 and abs(g.zeta) > 1e-9)
+    if isinstance(g, cirq.PhasedISwapPowGate):
+        p = g.phase_exponent % 1.0
+        return abs(g.phase_exponent) > 1e-9 and (abs(math.sin(math.pi * g.exponent / 2)) < 1e-6 or min(p, 1 - p) < 1e-9 or abs(p - 0.5) < 1e-9)
+    return False
+
+
+def fsim_reference(cirq, targets, check_types, g):
+    """(may, must, why): the family may accept g only if g is an instance of a type to check and its matrix is, up to global phase, the matrix of an
+    instance of some accepted type / of some accepted instance (may); it must accept g when the matrices coincide exactly (no global phase left over)
+    and no parameter of g is degenerate (must)."""
+    if not isinstance(g, tuple(check_types)):
+        return False, False, f'{type(g).__name__} is not among the types to check'
+    u = fs_unitary(cirq, g)
+    if u.shape != (4, 4):
+        return False, False, f'it acts on {cirq.num_qubits(g)} qubit(s), the accepted gates on two'
+    may = must = False
+    for t in targets:
+        if isinstance(t, type):
+            if abs(abs(u[0, 0]) - 1) > FS_TOL:
+                continue
+            lam = u[0, 0]
+            if fsim_type_fits(cirq, t, u / lam):
+                may = True
+                must = must or abs(lam - 1) < FS_TOL
+        else:
+            u0 = fs_unitary(cirq, t)
+            if u0.shape != u.shape:
+                continue
+            k = np.unravel_index(np.argmax(abs(u0)), u0.shape)
+            if abs(u[k]) > FS_TOL and fs_close(u * (u0[k] / u[k]), u0):
+                may = True
+                must = must or fs_close(u, u0)
+    if must and fsim_degenerate(cirq, g):
+        must = False
+    names = ', '.join(t.__name__ if isinstance(t, type) else repr(t) for t in targets)
+    return may, must, (f'its matrix equals that of an accepted gate [{names}]' if must else f'its matrix is, up to global phase, that of an accepted gate [{names}]' if may else
+                       f'no instance of an accepted gate [{names}] has its matrix, not even up to global phase')
+
+
+def fsim_candidates(mods, rng, targets_seen, full):
+    """Numeric gates of the six convertible types.  Fixed for every VERIF_SEED: FSimGate over the special angles; PhasedFSimGate at theta 0, +-pi/2, -pi/4, pi and
+    a generic theta with each of zeta / chi / gamma non-zero alone and together (fixed and drawn values); ISwapPow / CZPow with and without a global shift
+    (also shifts whose phase is 1); PhasedISwapPow over phase exponents x exponents; identities on 1-3 qubits; gates of other types.  For every accepted
+    PhasedFSimGate instance its neighbours: each phase angle zeroed / negated, the plain FSimGate with its theta and phi."""
+    cirq, cg = mods['cirq'], mods['cirq_google']
+    pi = math.pi
+    A = [0, pi / 2, -pi / 2, pi / 4, -pi / 4, pi / 6, pi, 0.4, -1.3]
+    out = [cirq.FSimGate(t, p) for t in A for p in [0, pi / 6, pi, -pi / 2, 0.2]]
+    nz = lambda: rng.choice([-1, 1]) * round(rng.uniform(0.1, 3), 3)
+    for t in [0, pi / 2, -pi / 4, 0.4, pi, -pi / 2, pi / 4] + ([round(rng.uniform(-3, 3), 3) for _ in range(4)] if full else []):
+        for z, x, g in [(0, 0, 0), (0.5, 0, 0), (0, 0.3, 0), (0, 0, 0.5), (0, nz(), 0), (nz(), nz(), 0), (0, nz(), nz()), (nz(), 0, nz()), (nz(), nz(), nz()), (0, 2 * pi, 0), (0, -0.7, 0)]:
+            for p in [0, pi / 6, 0.2]:
+                out.append(cirq.PhasedFSimGate(t, z, x, g, p))
+    out += [cirq.ISwapPowGate(exponent=t, global_shift=s) for t in [0, 1, -1, 0.5, -0.5, 0.25, 2, 0.3, 4] for s in [0, 0.5, 1, 4]]
+    out += [cirq.PhasedISwapPowGate(phase_exponent=p, exponent=t) for p in [0, 0.25, 0.2, 0.5, 1.0, -0.3] for t in [0, 1, 0.5, -0.5, 2, 0.3]]
+    out += [cirq.CZPowGate(exponent=t, global_shift=s) for t in [0, 1, -1, 0.5, 2, 0.3, -1 / 6] for s in [0, -0.5, 1]]
+    out += [cirq.IdentityGate(2), cirq.IdentityGate(1), cirq.IdentityGate(3), cg.SYC, cirq.SWAP, cirq.CNOT, cirq.ZZ ** 0.5, cirq.ISWAP, cirq.SQRT_ISWAP, cirq.SQRT_ISWAP_INV, cirq.CZ]
+    for t in targets_seen:
+        if isinstance(t, cirq.PhasedFSimGate):
+            th, z, x, g, p = t.theta, t.zeta, t.chi, t.gamma, t.phi
+            out += [t, cirq.PhasedFSimGate(th, 0, x, g, p), cirq.PhasedFSimGate(th, z, 0, g, p), cirq.PhasedFSimGate(th, z, x, 0, p), cirq.PhasedFSimGate(th, 0, 0, 0, p),
+                    cirq.PhasedFSimGate(th, z, -x, g, p), cirq.FSimGate(th, p), cirq.FSimGate(th, 0.0), cirq.PhasedISwapPowGate(exponent=-2 * th / pi, phase_exponent=x / (2 * pi))]
+            if abs(th - pi / 2) < 1e-9 and abs(p - pi / 6) < 1e-9:
+                out.append(cg.SYC)
+    return out
+
+
+def fsim_family_configs(mods, rng, full):
+    """(targets, types to check, allow_symbols).  Type targets: each convertible type alone and two mixtures; instance targets: the stock Google gates, plain
+    and phased fsim gates with a swap phase chi (fixed and drawn), phased iswap, a CZ power, identity; checked types: all / FSimGate+PhasedFSimGate only."""
+    cirq, cg = mods['cirq'], mods['cirq_google']
+    pi = math.pi
+    types = fsim_types(cirq)
+    chi = lambda: rng.choice([-1, 1]) * round(rng.uniform(0.1, 3), 3)
+    th, ph = rng.choice([(pi / 2, pi / 6), (-pi / 4, 0.0), (0.4, 0.2), (pi / 4, 0.0), (-1.3, pi)])
+    targets = [[T] for T in types] + [[cirq.ISwapPowGate, cirq.CZPowGate], [cirq.FSimGate, cirq.SQRT_ISWAP]]
+    targets += [[cg.SYC], [cirq.SQRT_ISWAP], [cirq.SQRT_ISWAP_INV], [cirq.CZ], [cg.SYC, cirq.SQRT_ISWAP, cirq.SQRT_ISWAP_INV, cirq.CZ],
+                [cirq.PhasedFSimGate(pi / 2, 0, 0.3, 0, pi / 6)], [cirq.PhasedFSimGate(-pi / 4, 0, 0.7, 0, 0)], [cirq.PhasedFSimGate(0.4, 0.5, 0.6, 0.7, 0.2)],
+                [cirq.PhasedFSimGate(th, 0, chi(), 0, ph)], [cirq.PhasedFSimGate(th, 0, 0, chi(), ph)],
+                [cirq.PhasedISwapPowGate(phase_exponent=0.25, exponent=0.5)], [cirq.FSimGate(0.4, 0.2)], [cirq.CZ ** 0.5], [cirq.IdentityGate(2)], [cirq.ISWAP ** -1]]
+    out = []
+    for i, tg in enumerate(targets):
+        out += [(tg, [], False), (tg, [], True)]
+        if full or i % 3 == 0:
+            out += [(tg, [cirq.FSimGate, cirq.PhasedFSimGate], False), (tg, [cirq.FSimGate, cirq.PhasedFSimGate], True)]
+    return out
+
+
+def fsim_family_stream(ctx, mods, full):
+    """cirq_google.FSimGateFamily ('accept compatible instances of the related gate types, converted to an EQUIVALENT instance of an accepted type / equal to an
+    accepted instance modulo type conversion') judged by the meaning of the gates: their matrices.  Every candidate x family goes through `gate in family`,
+    `operation in Gateset(family, ...)` and validate_operation of a GridDevice whose gateset holds the family (coupled pair; an uncoupled pair must always be refused)."""
+    cirq, cg = mods['cirq'], mods['cirq_google']
+    rng = ctx.rng
+    configs = fsim_family_configs(mods, rng, full)
+    seen = []
+    for tg, _, _ in configs:
+        for t in tg:
+            if not isinstance(t, type) and not any(t is s for s in seen):
+                seen.append(t)
+    cands = fsim_candidates(mods, rng, seen, full)
+    mats = {}
+    q = cirq.GridQubit.rect(2, 2)
+    pairs = [(a, b) for a in q for b in q if a < b and a.is_adjacent(b)]
+    types = fsim_types(cirq)
+    for tg, ct, sym in configs:
+        try:
+            fam = cg.FSimGateFamily(gates_to_accept=tg, gate_types_to_check=ct, allow_symbols=sym)
+            gs = cirq.Gateset(fam, cirq.PhasedXZGate, cirq.MeasurementGate)
+            dev = cg.GridDevice(cirq.GridDeviceMetadata(pairs, gs, all_qubits=q))
+        except Exception as e:
+            ctx.mark_broken('harness:fsim-family', f'{type(e).__name__}: {e}')
+            continue
+        fam_text = (f'cirq_google.FSimGateFamily(gates_to_accept=[{", ".join(t.__name__ if isinstance(t, type) else repr(t) for t in tg)}]'
+                    + (f', gate_types_to_check=[{", ".join(t.__name__ for t in ct)}]' if ct else '') + (', allow_symbols=True' if sym else '') + ')')
+        for gi, g in enumerate(cands):
+            may, must, why = fsim_reference(cirq, tg, ct or types, g)
+            n = cirq.num_qubits(g)
+            op = g.on(*(q[:2] if n == 2 else q[:n]))
+            answers = [('gate in family', answer(lambda: g in fam)), ('operation in Gateset(family, PhasedXZGate, MeasurementGate)', answer(lambda: op in gs)),
+                       ('GridDevice(2x2 grid, that gateset).validate_operation on a coupled pair', device_answer(lambda: dev.validate_operation(op)))]
+            if n == 2 and gi % 4 == 0:
+                far = g.on(q[0], q[3])
+                answers.append(('uncoupled', device_answer(lambda: dev.validate_operation(far))))
+            ctx.count('membership:fsim-family', [fam_text, repr(g)], isinstance(g, tuple(types)) and (may or type(g) not in (cirq.FSimGate, cirq.IdentityGate)),
+                      sample=dict(family=fam_text[:200], gate=repr(g)[:120], accepted=answers[0][1], reference=why[:120]) if rng.random() < 0.002 else None)
+            for how, got in answers:
+                rep = dict(kind='fsim_family', targets=[t.__name__ if isinstance(t, type) else repr(t) for t in tg], check_types=[t.__name__ for t in ct], allow_symbols=sym, gate=repr(g))
+                if how == 'uncoupled':
+                    if got is not False:
+                        ctx.violation('device:grid:fsim-family:accepts:pair-not-allowed', f'GridDevice on the 2x2 grid with {fam_text} in its gateset: validate_operation({far!r}) -> {got} on the uncoupled pair', rep)
+                    continue
+                if got is True and not may:
+                    wrong = 'accepts'
+                elif got is False and must:
+                    wrong = 'rejects'
+                elif got in (True, False):
+                    continue
+                else:
+                    wrong = 'raises'
+                if isinstance(g, cirq.IdentityGate) and n != 2 and wrong in ('accepts', 'raises'):
+                    sig = FS_IDENTITY_SIG
+                else:
+                    sig = f'{"device:grid:fsim-family" if how.startswith("GridDevice") else FS_SIG}:{wrong}:{"type" if all(isinstance(t, type) for t in tg) else "instance"}-target'
+                ctx.violation(sig, f'{how} -> {got} for gate {g!r} and family {fam_text}, although {why}'[:900], rep)
+
+
 def mapping_manager_stream(ctx, mods, n_cases):
     """The real MappingManager against the model: arrays after __init__ and after every prefix of a random swap sequence."""
     cirq = mods['cirq']
@@ -2410,7 +2716,15 @@ def run(ctx):
                 'ids of a pair in either order, pairs listed twice, measurement groups and one- / three-qubit symmetric targets beside the couplings, measurement groups first) on a fixed 2x3 patch '
                 'and a drawn patch each, valid_gates lists in rotation; couplings = the two-element targets of every SYMMETRIC target set (device.proto); one representative operation per '
                 'valid_gates entry, a specified two-qubit gate on EVERY ordered pair of qubits and a qubit outside, whole circuits over all couplings; the three documented kinds of invalid '
-                'specification must raise ValueError; non-trivial = a coupling set that is not the conventionally named one / a two-qubit operation.')
+                'specification must raise ValueError; non-trivial = a coupling set that is not the conventionally named one / a two-qubit operation. '
+                'device multi-qubit: for every device (GridDevice, AQT, Pasqal, virtual Pasqal incl. five fixed layouts over LineQubit / TwoDQubit / ThreeDQubit / GridQubit wider than the '
+                'control radius, IonQ) ParallelGate of one-qubit gates on 2, 3 and all qubits, identities on several qubits, CZ powers, CNOT, CCZ, CCX, XX, joint measurements on tuples '
+                'that are pairwise allowed / contain a pair that is not / reversed / partly off the device; Pasqal validate_circuit on one-operation-per-moment circuits with a terminal '
+                'measurement; the control radius binds the controlled gates (integer CZ powers) only. fsim family: ~310 numeric gates of the six convertible types (FSim / PhasedFSim with '
+                'each of zeta, chi, gamma non-zero alone and together at theta 0, +-pi/2, +-pi/4, pi, generic; ISwapPow / CZPow with global shifts; PhasedISwapPow; identities on 1-3 qubits) '
+                'x ~80 FSimGateFamily configurations (each type as target, stock and chi-carrying instances, restricted gate_types_to_check, allow_symbols) through `in`, Gateset and a '
+                'GridDevice; judged by matrices: accepting needs an instance of an accepted type / an accepted instance with the same matrix up to global phase, refusing is wrong when '
+                'the matrices coincide exactly and no parameter of the gate is degenerate; non-trivial = a candidate that is not a plain FSimGate / identity or that matches.')
     ctx.assumptions += ['float tolerance 2^-20 (~1e-6) for unitaries up to global phase', 'operations enter the model through their own cirq.unitary (C03/C04 tie those to the documented matrices)']
     ctx.set_obligations(coq.compile_props('C07'))
     n = 1 if ctx.tier == 'quick' else 10
@@ -2423,6 +2737,7 @@ def run(ctx):
     mapping_manager_stream(ctx, mods, 60 * n)
     device_stream(ctx, mods, 28 * n, 40)
     spec_sweep_stream(ctx, mods, full=ctx.tier != 'quick')
+    fsim_family_stream(ctx, mods, full=ctx.tier != 'quick')
     evaluate(ctx, mods, checks, confirm)
     # translation validation: programs = compiler and router runs whose real output was validated
     ctx.cov['programs'] = sum(v for k, v in ctx.streams.items() if (k.startswith('compile:') or k.startswith('route:')) and not k.endswith(':relation'))
@@ -2435,7 +2750,7 @@ def run(ctx):
 def py_eval(mods, text):
     import sympy
     return eval(text, dict(cirq=mods['cirq'], cirq_google=mods['cirq_google'], cirq_ionq=mods['cirq_ionq'], cirq_aqt=mods['cirq_aqt'],
-                           cirq_pasqal=mods['cirq_pasqal'], np=np, sympy=sympy, frozenset=frozenset))
+                           cirq_pasqal=mods['cirq_pasqal'], pasqal=mods['cirq_pasqal'], np=np, sympy=sympy, frozenset=frozenset))
 
 
 def replay_device(mods, data):
@@ -2464,7 +2779,7 @@ def replay_device(mods, data):
         gs_obj = device.gateset
     elif kind == 'pasqal_virtual':
         device = cp.PasqalVirtualDevice(data['radius'], qubits)
-        gs_obj, cgs = device.gateset, device.controlled_gateset
+        gs_obj, cgs = device.gateset, cirq.Gateset(cirq.AnyIntegerPowerGateFamily(cirq.CZPowGate))
     else:
         device = ci.IonQAPIDevice(len(qubits))
         gs_obj = device.gateset
@@ -2530,6 +2845,16 @@ def replay(ctx, data):
     if data.get('kind') == 'device_spec_invalid':
         print('replay: re-run `VERIF_SEED=%s ./check C07` (fixed invalid specification: %s)' % (data.get('seed'), data.get('label')))
         return False
+    if data.get('kind') == 'fsim_family':
+        cirq, cg = mods['cirq'], mods['cirq_google']
+        targets = [getattr(cirq, t) if hasattr(cirq, t) and isinstance(getattr(cirq, t), type) else py_eval(mods, t) for t in data['targets']]
+        check_types = [getattr(cirq, t) for t in data['check_types']]
+        fam = cg.FSimGateFamily(gates_to_accept=targets, gate_types_to_check=check_types, allow_symbols=data['allow_symbols'])
+        g = py_eval(mods, data['gate'])
+        got = answer(lambda: g in fam)
+        may, must, why = fsim_reference(cirq, targets, check_types or fsim_types(cirq), g)
+        print(f'replay: {g!r} in {fam!r} -> {got}; by the matrices: {why} (may accept: {may}, must accept: {must})')
+        return (got is True and may) or (got is False and not must)
     if data.get('kind') == 'cop_membership':
         cirq = mods['cirq']
         gsets = {t: make_target(mods, t) for t in TARGETS}
